@@ -538,14 +538,19 @@ func tdCfg() *gen.TDCfg {
 	}
 }
 
-func genCase(t *rapid.T) Case {
+func genCase(t *rapid.T) Case { return genCaseWith(t, nil) }
+
+// genCaseWith draws a case; share (if given) runs after the type and a pre-filled value (never the zero value then)
+// are drawn and before the configuration is written: it may add fields and store objects of the pre-filled value at
+// further places (alias_test.go).
+func genCaseWith(t *rapid.T, share func(*rapid.T, *Case, *gen.TDCfg)) Case {
 	c := Case{VarExp: rapid.IntRange(0, 2).Draw(t, "varexp") == 0}
 	if rapid.IntRange(0, 2).Draw(t, "haspolicy") == 0 {
 		c.Policy = rapid.IntRange(1, 4).Draw(t, "policy")
 	}
 	cfg := tdCfg()
 	if rapid.IntRange(0, 11).Draw(t, "toplevel") == 0 {
-		return genCollTarget(t, c, cfg)
+		return genCollTarget(t, c, cfg, share)
 	}
 	c.T = gen.GenStructTD(t, cfg, runlog.Pick(3, 4))
 	enrich(t, c.T)
@@ -570,11 +575,14 @@ func genCase(t *rapid.T) Case {
 		c.T.Fields = append(c.T.Fields, f)
 		assignTags(t, c.T, 0)
 	}
-	if rapid.IntRange(0, 5).Draw(t, "zero") != 0 || (ifaces && rapid.Bool().Draw(t, "ifzero")) {
+	if share != nil || rapid.IntRange(0, 5).Draw(t, "zero") != 0 || (ifaces && rapid.Bool().Draw(t, "ifzero")) {
 		c.Pre = gen.GenTV(t, cfg, c.T, false)
 		if ifaces {
 			c.typedIfaces(t, cfg, c.T, c.Pre, 2)
 		}
+	}
+	if share != nil {
+		share(t, &c, cfg)
 	}
 	g := &cfgGen{t: t, varexp: c.VarExp, dyn: c.Dyn}
 	c.Cfg = gen.Obj()
@@ -589,7 +597,7 @@ func genCase(t *rapid.T) Case {
 // slice or array (plain, or a catalogue type with Validate / InitDefaults) of
 // elements that carry validators: the configuration itself is the object /
 // list. (No references: the settings rN would be entries of the target.)
-func genCollTarget(t *rapid.T, c Case, cfg *gen.TDCfg) Case {
+func genCollTarget(t *rapid.T, c Case, cfg *gen.TDCfg, share func(*rapid.T, *Case, *gen.TDCfg)) Case {
 	c.VarExp = false
 	switch rapid.IntRange(0, 8).Draw(t, "topkind") {
 	case 6, 7:
@@ -612,9 +620,12 @@ func genCollTarget(t *rapid.T, c Case, cfg *gen.TDCfg) Case {
 	ctr := 1000
 	wrapInline(t, c.T, &ctr)
 	assignTags(t, c.T, 1)
-	if rapid.IntRange(0, 3).Draw(t, "zero") != 0 || hasIface(c.T) {
+	if share != nil || rapid.IntRange(0, 3).Draw(t, "zero") != 0 || hasIface(c.T) {
 		c.Pre = gen.GenTV(t, cfg, c.T, false)
 		c.typedIfaces(t, cfg, c.T, c.Pre, 2)
+	}
+	if share != nil {
+		share(t, &c, cfg)
 	}
 	g := &cfgGen{t: t, dyn: c.Dyn}
 	sh := c.T.Shape()
